@@ -209,6 +209,9 @@ def run(tier, seed):
     info = audit("C08")
     n = 250 if tier == "quick" else 4000
     put_absorb(ck, "C08", run_tasks(put_eval, [{"pid": "C08", "seed": seed, "i": i, "cfg": PUT_CFG} for i in range(n)]), PUT_CFG, "Model.Put")
+    # a volume mounted on a path that has ".Trash-$uid" among its components, every time
+    ocfg = dict(PUT_CFG, focus="odd-mount")
+    put_absorb(ck, "C08", run_tasks(put_eval, [{"pid": "C08odd", "seed": seed, "i": i, "cfg": ocfg} for i in range(60 if tier == "quick" else 600)]), ocfg, "Model.Put")
     read_absorb(ck, run_tasks(read_eval, tasks_for("C08", seed, READ_CFG, n)), READ_CFG)
     for r in run_tasks(stat_fault_task, [{"seed": seed, "i": i} for i in range(6 if tier == "quick" else 36)]):
         if "machinery" in r:
